@@ -10,6 +10,12 @@ Shapes (round 3): the dependency helper is read as a set of exists-chains (loops
 nesting order, several loops) over list values resolved into parts (`[x] + list(y)`, `[x, *y]`, literal + extend/append/+=,
 accumulate loops); closure helpers as nested generator, self-recursive list builder or while loop; mirror updates through alias
 locals.  "Expected construct not found" is UNDECIDED unless the function visibly does nothing of the kind (closed world).
+Round 11: move() may relocate in a working copy written back once (`W = self._list.copy() .. self._list[:] = W`: same pairing rule on
+W); re-rooting written out as `self.parent = self.__wbs._root()`; closure walkers over the raw `t.__predecessors`; a selector local
+chosen by an if/elif chain inside the validation loop (taskrules.TreeExpander); emptiness of the child / link lists as atoms with
+the axioms desc(A,B) => B has children, _has_dependency_with_parents(A,B) => A has children or links (a fast path that skips the
+whole validation block for a "plain leaf" is refuted for P1 only); mirror_children: no rejection between resetting the old
+children's parent and clearing the list.
 Not decided: explicit-stack closure walkers, sort() replacing the list by something that is not sorted()/reversed() of it,
 an in-place list.sort() counts as a permutation (its atomicity is C15.sort_works_on_a_copy).
 """
@@ -886,6 +892,8 @@ def _walk_form(ctx, f, raw, pub):
     -> ('ok', func, node, note) | ('bad', func, node, construct, msg) | ('unknown', func, node, msg)"""
     prog = ctx.prog
     what = unmangle(f.name)
+    # the direct links of a task: the raw private list, or the public facade over it (same elements, same order)
+    rels = sorted({raw, pub, '_Task__' + pub})
     # walker candidates: functions nested in f, and module functions / static methods f calls with the task itself as first argument
     # (further parameters bound to constants at that call, e.g. the name of the link attribute)
     cands = [(g, {}, None) for g in prog.all_funcs() if g.parent is f and not isinstance(g.node, ast.Lambda)]
@@ -945,18 +953,18 @@ def _walk_form(ctx, f, raw, pub):
             return True
 
         def iter_ok(it):
-            if match(f"{p}.{raw}", it) or match(f"{p}.{pub}", it):
+            if any(match(f"{p}.{r_}", it) for r_ in rels):
                 return True
             m = match(f"getattr({p}, $n)", it)
             if m:
                 n = m['n']
                 val = n.value if isinstance(n, ast.Constant) else (consts.get(n.id) if isinstance(n, ast.Name) else None)
-                return val in (pub, raw)
+                return val in rels
             m = match(f"$fn({p})", it)
             if m and isinstance(m['fn'], ast.Name) and isinstance(consts.get(m['fn'].id), ast.Lambda):
                 lam = consts[m['fn'].id]
                 a = lam.args.args[0].arg
-                return bool(match(f"{a}.{raw}", lam.body) or match(f"{a}.{pub}", lam.body))
+                return any(match(f"{a}.{r_}", lam.body) for r_ in rels)
             return False
         rec_calls = [n for n in ast.walk(g.node) if isinstance(n, ast.Call) and is_rec(n)]
         for lp in [n for n in walk_no_nested(g.node) if isinstance(n, ast.For)]:
@@ -966,8 +974,7 @@ def _walk_form(ctx, f, raw, pub):
             body = [s for s in lp.body if not (isinstance(s, ast.Expr) and isinstance(s.value, ast.Constant))]
 
             def skips_empty(test):
-                return any(match(pat, test) for pat in (f"{v}.{raw}", f"{v}.{pub}", f"len({v}.{raw}) > 0", f"len({v}.{pub}) > 0",
-                                                        f"len({v}.{raw})", f"len({v}.{pub})"))
+                return any(match(pat, test) for r_ in rels for pat in (f"{v}.{r_}", f"len({v}.{r_}) > 0", f"len({v}.{r_})"))
             # `if v.<rel>: yield from rec(v)` only skips an empty list: same as the unconditional step
             body = [(s.body[0] if isinstance(s, ast.If) and skips_empty(s.test) and len(s.body) == 1 and not s.orelse else s) for s in body]
             # leaving the loop early (return / break, typically "already visited"): the remaining elements of this task are never walked
@@ -1031,8 +1038,7 @@ def _walk_form(ctx, f, raw, pub):
             for st in body:
                 if isinstance(st, ast.If):
                     inner = [n for n in ast.walk(st) if isinstance(n, ast.YieldFrom) and isinstance(n.value, ast.Call) and is_rec(n.value, v)]
-                    harmless = any(match(pat, st.test) for pat in (f"{v}.{raw}", f"{v}.{pub}", f"len({v}.{raw}) > 0", f"len({v}.{pub}) > 0",
-                                                                   f"len({v}.{raw})", f"len({v}.{pub})"))
+                    harmless = skips_empty(st.test)
                     if inner and y and not harmless and not any(x is inner[0] for b in st.orelse for x in ast.walk(b)):
                         return ('bad', g, st, st, f"{what} only walks on from an element when `{src(st.test)[:60]}`: the transitive closure is cut "
                                                   f"there, and the guards that rely on it (cycle / ancestor checks) miss everything beyond")
@@ -1053,7 +1059,7 @@ def _walk_form(ctx, f, raw, pub):
                   unmangle(n.func.attr) == unmangle(f.name)]
     pub_all = {'children': 'all_children', 'predecessors': 'all_predecessors', 'successors': 'all_successors'}[pub]
     for lp in [n for n in walk_no_nested(f.node) if isinstance(n, ast.For)]:
-        if not ((match(f"{s}.{raw}", lp.iter) or match(f"{s}.{pub}", lp.iter)) and isinstance(lp.target, ast.Name)):
+        if not (any(match(f"{s}.{r_}", lp.iter) for r_ in rels) and isinstance(lp.target, ast.Name)):
             continue
         v = lp.target.id
         ap, rc = [], []
@@ -1086,7 +1092,7 @@ def _walk_form(ctx, f, raw, pub):
     #                             pending.extend(reversed(cur.<raw>))
     def rev_of(e, owner):
         m = match("list(reversed($x))", e) or match("reversed($x)", e) or match("$x[::-1]", e) or match("list($x)[::-1]", e)
-        return bool(m and (match(f"{owner}.{raw}", m['x']) or match(f"{owner}.{pub}", m['x'])))
+        return bool(m and any(match(f"{owner}.{r_}", m['x']) for r_ in rels))
     fl = flow_of(f)
     for w in [n for n in walk_no_nested(f.node) if isinstance(n, ast.While)]:
         t = w.test
@@ -1588,6 +1594,11 @@ def mirror_parent(ctx, o):
     # re-rooting
     none_stores = [x for x in stores if isinstance(x[2], ast.Constant) and x[2].value is None]
     reroot = [c for c, x in xcalls('append') if match(f"{s}._Task__wbs._root().children.append({s})", x)]
+    if not reroot:
+        # the assignment that this append performs, written out: `self.parent = self.__wbs._root()` (the setter calls itself with the
+        # hidden root task as the new parent)
+        reroot = [tgt for st, tgt, val in facts.attr_stores(f, 'parent') if isinstance(tgt.value, ast.Name) and tgt.value.id == s and
+                  match(f"{s}._Task__wbs._root()", ex.expand(val, cfg.node_of(st)))]
     if reroot and none_stores:
         if raw:
             for what, nd in (('re-rooting', cfg.node_containing(reroot[0])), ('parent = None', cfg.node_of(none_stores[0][0]))):
@@ -1687,6 +1698,7 @@ def mirror_children(ctx, o):
     ex = Expander(prog, f, ctx.typer, inline=False)
     # old children lose their parent
     ok = False
+    unparent = []
     for st, tgt, val in facts.attr_stores(f, '_Task__parent'):
         if isinstance(val, ast.Constant) and val.value is None:
             fo = _for_of(f, st)
@@ -1698,6 +1710,7 @@ def mirror_children(ctx, o):
             if fo is not None and match(f"{s}._Task__children", itx) and \
                     isinstance(tgt.value, ast.Name) and isinstance(fo.target, ast.Name) and tgt.value.id == fo.target.id:
                 ok = True
+                unparent.append(st)
                 o.site(f, st, "for v in self.__children: v.__parent = None")
     if not ok:
         o.refute(f, f.node, 'old children unparented', "old children keep pointing to the task as parent")
@@ -1708,6 +1721,29 @@ def mirror_children(ctx, o):
                                                   "list and a later operation through them re-attaches removed tasks")
     elif len(clears) == 1:
         o.site(f, clears[0], "shared list cleared in place")
+        # the two halves of the release (parent pointers reset, list emptied) are one step: a rejection in between leaves the old
+        # children listed under the task while they report no parent
+        cln = cfg.node_containing(clears[0])
+        eff = Effects(prog, ctx.typer, ctx.cg)
+        events = [(cfg.node_of(n), n, 'raise') for n in walk_no_nested(f.node) if isinstance(n, ast.Raise)]
+        for ci in ctx.cg.calls_in(f):
+            if ci.kind == 'call' and any(t is not None and eff.raises_star(t) for t in ci.targets):
+                events.append((cfg.node_containing(ci.node), ci.node, f"`{src(ci.node)[:40]}` (may raise)"))
+        for st in unparent:
+            sn = cfg.node_of(st)
+            if sn is None or cln is None:
+                continue
+            first, second = (sn, cln) if cfg.can_reach(sn, cln) else (cln, sn)
+            if not cfg.can_reach(first, second):
+                continue
+            hit = [(en, n, txt) for en, n, txt in events if en is not None and en is not first and en is not second and
+                   cfg.is_reachable(en) and cfg.can_reach(first, en) and not cfg.can_reach(second, en)]
+            if hit:
+                en, n, txt = hit[0]
+                how = "after the old children lost their parent (`" + src(st)[:40] + "`) and before the child list is cleared" if first is sn else \
+                    "after the child list was cleared and before the old children lose their parent (`" + src(st)[:40] + "`)"
+                o.refute(f, n, 'rejection between unparenting and clearing', f"{txt} can happen {how}: a rejected assignment leaves the two "
+                         f"ends of the old parent/child edges in disagreement (listed under the task but reporting no parent, or the reverse)")
     else:
         o.refute(f, f.node, 'clear', "the child list is not cleared in place exactly once")
     # re-parent every element of value through the setter, in order
@@ -1738,15 +1774,35 @@ def facades(ctx, o):
     f = prog.func('task._ChildrenList.move')
     cfg = cfg_of(f)
     xc = {id(c): T.expand_call(prog, f, ctx.typer, c) for c in facts.calls_named(f, 'remove') + facts.calls_named(f, 'insert')}
+    base = "self._list"
     rem = [c for c in facts.calls_named(f, 'remove') if match("self._list.remove($t)", xc[id(c)])]
     ins = [c for c in facts.calls_named(f, 'insert') if match("self._list.insert($i, $t)", xc[id(c)])]
     if not rem:
+        # the relocation done in a working copy that is written back afterwards: W = self._list.copy(); W.remove(x); W.insert(_, x) ..;
+        # self._list[:] = W - the same pairing rule, on W
+        wc = _working_copy(f)
+        if wc is not None:
+            base = wc
+            xc = {id(c): c for c in facts.calls_named(f, 'remove') + facts.calls_named(f, 'insert')}
+            rem = [c for c in facts.calls_named(f, 'remove') if match(f"{base}.remove($t)", c)]
+            ins = [c for c in facts.calls_named(f, 'insert') if match(f"{base}.insert($i, $t)", c)]
+            other = [n for n in walk_no_nested(f.node) if isinstance(n, ast.Call) and isinstance(n.func, ast.Attribute) and
+                     isinstance(n.func.value, ast.Name) and n.func.value.id == base and n.func.attr in _LIST_MUT and
+                     n.func.attr not in ('remove', 'insert')] + \
+                    [n for n in walk_no_nested(f.node) if isinstance(n, (ast.AugAssign, ast.Delete)) and
+                     any(isinstance(x, ast.Name) and x.id == base for x in ast.walk(n))] + \
+                    [n for n in walk_no_nested(f.node) if isinstance(n, ast.Subscript) and isinstance(n.ctx, ast.Store) and
+                     isinstance(n.value, ast.Name) and n.value.id == base]
+            if other:
+                o.undecided(f, other[0], 'move', f"the working copy `{base}` of the child list is also changed by `{src(other[0])[:50]}`")
+                rem = []
+    if not rem and not o.unknown:
         o.undecided(f, f.node, 'move', "move does not remove/insert on the shared list")
     for c in rem:
-        t = match("self._list.remove($t)", xc[id(c)])['t']
+        t = match(f"{base}.remove($t)", xc[id(c)])['t']
         rn = cfg.node_containing(c)
         # every path from the removal to the loop header / exit passes an insert of the same element; no raise in between
-        ins_ids = {cfg.node_containing(i).id for i in ins if same(match("self._list.insert($i, $t)", xc[id(i)])['t'], t)}
+        ins_ids = {cfg.node_containing(i).id for i in ins if same(match(f"{base}.insert($i, $t)", xc[id(i)])['t'], t)}
         seen, todo, leak, raised = set(), list(rn.succ), False, False
         fo = _for_of(f, c)
         stop = {cfg.node_of(fo).id} if fo is not None else set()
@@ -1895,6 +1951,19 @@ def facades(ctx, o):
             for w in eff.direct_writes(m):
                 if w.field == '_list':
                     o.refute(m, w.node, w.node, f"{cls}.{m.name} mutates the raw relation list it was handed")
+
+
+def _working_copy(f):
+    """name of a local that is defined exactly once, as a copy of the shared list, and is what the shared list is replaced by
+    (`self._list[:] = W`); None when there is no such local"""
+    fl = flow_of(f)
+    for st, val, inplace in T.list_replacements(f):
+        if isinstance(val, ast.Name):
+            ds = fl.defs_of(val.id)
+            if len(ds) == 1 and ds[0].kind == 'assign' and ds[0].value is not None and any(
+                    match(pat, ds[0].value) for pat in ("self._list.copy()", "list(self._list)", "self._list[:]", "[$x for $x in self._list]")):
+                return val.id
+    return None
 
 
 def move_anchor(ctx, o, eff):
